@@ -388,6 +388,14 @@ func feedBudgetExceeded(facts map[Fact]bool) bool {
 		if k, isK := constInt(rel.Y); isK && k >= 100 && (rel.Op == token.GTR || rel.Op == token.GEQ) {
 			return true
 		}
+		// constant + keys typed since the keys were last all used
+		if bo, ok := rel.Y.(*ssa.BinOp); ok && bo.Op == token.ADD && (rel.Op == token.GTR || rel.Op == token.GEQ) {
+			for _, pair := range [][2]ssa.Value{{bo.X, bo.Y}, {bo.Y, bo.X}} {
+				if k, isK := constInt(pair[0]); isK && k >= 100 && isFieldLoad(stripConv(pair[1]), "core.Keys", "typed") {
+					return true
+				}
+			}
+		}
 	}
 	return false
 }
